@@ -3,6 +3,7 @@
 import Chewing.Model.Loader
 import Chewing.Model.UhashEnc
 import Chewing.Model.TrieWalk
+import Chewing.Model.TrieCodec
 import Chewing.Model.Syllable
 import Chewing.Driver.Util
 /-!
@@ -15,6 +16,8 @@ import Chewing.Driver.Util
     loader encbin <lifetime bytes> G:<stored records> => <file bytes> valid|invalid <live records>
     walk entries <index bytes> <dataLen> <leaf table>                    => ok <n> <syls>/<phrase>… | panic | hang
     walk lookup  <index bytes> <dataLen> <leaf table> <s|f> <first> <q>  => ok <n> <phrase>…        | panic | hang
+    walk open <file bytes>                                               => ok <index bytes> <dataLen> | err
+    walk validate <index bytes> <dataLen>                                => ok | err
 
 `<dat>` = `-` (file absent) or `D:` + `;`-joined entries; an entry is `<syls>/<x-hex phrase>/<freq>/<time>`
 with `<syls>` comma-separated codes or `-`.  The leaf table is `T:` + `;`-joined `db,de=<p>|<p>…`
@@ -130,7 +133,8 @@ def tblOf (idx dl tab : String) : TrieWalk.Tbl String :=
   { recs := TrieWalk.parseIndex (unhex idx), dataLen := natOf dl,
     leaf := fun db de => ((lt.find? (fun e => e.1 == (db, de))).map (·.2)).getD [] }
 
-def walkFuel : Nat := 4000
+/-- the proved bound of `entries_terminates` (validated tables only reach the traversals) -/
+def walkFuel (t : TrieWalk.Tbl String) : Nat := 16 * t.n + 2
 
 def stdPred (n syl : Nat) : Bool := n == syl
 /-- `FuzzyPartialPrefix`: `n != 0 && Syllable::try_from(n).starts_with(syl)` -/
@@ -142,7 +146,7 @@ def walkExpected (fn : String) (args : List String) : Option String :=
   match fn, args with
   | "entries", [idx, dl, tab] =>
     let t := tblOf idx dl tab
-    some (match TrieWalk.entriesFuel t walkFuel with
+    some (match TrieWalk.entriesFuel t (walkFuel t) with
       | .ok gs =>
         let es := TrieWalk.flatten gs
         unwords ("ok" :: toString es.length :: es.map fun e => sylsS e.1 ++ "/" ++ e.2)
@@ -156,6 +160,12 @@ def walkExpected (fn : String) (args : List String) : Option String :=
       | .ok ps => unwords ("ok" :: toString ps.length :: ps)
       | .panic _ => "panic"
       | .outOfFuel => "hang")
+  | "open", [file] =>
+    some (match TrieCodec.openTrie (unhex file) with
+      | some t => unwords ["ok", hexBytes 'b' t.index, toString t.data.length]
+      | none => "err")
+  | "validate", [idx, dl] =>
+    some (if TrieWalk.validate (tblOf idx dl "T:") then "ok" else "err")
   | _, _ => none
 
 end Chewing.Driver
